@@ -896,8 +896,8 @@ func TestC33(t *testing.T) {
 	})
 
 	small := allSmallDAGs()
-	nSmall := r.N(1500, len(small)*150)
-	nRnd := r.N(4500, 120000)
+	nSmall := r.N(1500, len(small)*120)
+	nRnd := r.N(4500, 90000)
 	var st c33Stats
 	pars := []int{1, 2, 4, 16}
 	reps := 1
@@ -971,7 +971,7 @@ func TestC33(t *testing.T) {
 	r.ClassN("histories-completed", st.histories.Load())
 	r.ClassN("porcupine-per-key-operations", st.porcKeyOps.Load())
 	if !r.Quick() {
-		r.Extra("small_dag_enumeration", fmt.Sprintf("all %d labelled DAGs on <=4 nodes, each with 150 histories", len(small)))
+		r.Extra("small_dag_enumeration", fmt.Sprintf("all %d labelled DAGs on <=4 nodes, each with 120 histories", len(small)))
 	}
 	if missing := reportHooks(r, []string{"incr.run.beforeCAS", "incr.run.beforeExecute", "incr.run.follower", "incr.wait.parked", "incr.evict.locked"}); len(missing) > 0 && !r.Replaying() {
 		r.Inconclusive(fmt.Sprintf("C33: hook sites never reached (schedule perturbation / follower paths not exercised): %v", missing))
